@@ -547,18 +547,25 @@ def computeFdrOrig (p : List α) : Res (List α) :=
 def computeFdr (p : List α) : Res (List α) :=
   fdrLoop p.length (fun k _ => p.length - k) 0 (sortPValues p) (List.replicate p.length zero)
 
-/-- Benjamini–Hochberg: the answer has one entry per p-value, and the entries of the p-values
-equal to `x` are `x·n/r` for the ranks `r` of that tie group — the `m` ranks below
-`n - #{p > x}` — in some order (for distinct p-values: `outᵢ = pᵢ·n/#{pⱼ ≤ pᵢ}`) -/
-def IsFdr (p out : List α) : Prop :=
-  out.length = p.length ∧ ∀ x ∈ p,
-    listEq eqb
-      (sortVals ((p.zip out).filterMap (fun yo => if eqb yo.1 x then some yo.2 else none)))
-      (sortVals ((List.range (p.countP (fun y => eqb y x))).map
-        (fun (k : Nat) => x * ofInt p.length / ofInt ((p.length - (p.countP (fun y => ltb x y) + k) : Nat) : Int)))) = true
+/-- the entry answered for the p-value at position `σ[k]` of the ranking is `p·n/(n - k)` -/
+def fdrEntryOk (p out : List α) (σ : List Nat) (k : Nat) : Bool :=
+  match σ[k]? with
+  | none => false
+  | some i =>
+    match p[i]?, out[i]? with
+    | some x, some o => eqb o (x * ofInt p.length / ofInt ((p.length - k : Nat) : Int))
+    | _, _ => false
 
-instance (p out : List α) : Decidable (IsFdr p out) := by
-  unfold IsFdr; infer_instance
+/-- Benjamini–Hochberg along a ranking `σ`: `σ` lists the positions by *decreasing* p-value (a
+permutation of the positions; equal p-values in any order), the answer has one entry per p-value,
+and the p-value at `σ[k]` — whose rank among the `n` p-values is `n - k` — is answered
+`p·n/(n - k)` -/
+def IsFdrVia (p out : List α) (σ : List Nat) : Prop :=
+  IsSortingPerm (fun a b => ltb b a) p σ ∧ out.length = p.length ∧
+  ∀ k, k < σ.length → fdrEntryOk p out σ k = true
+
+instance (p out : List α) (σ : List Nat) : Decidable (IsFdrVia p out σ) := by
+  unfold IsFdrVia; infer_instance
 
 end Fdr
 end Bpp.VecTools
